@@ -30,7 +30,8 @@ def gen_dim(rnd, n):
     ticks = [t0]
     for _ in range(n - 1):
         ticks.append(ticks[-1] + rnd.randint(1, 4))
-    return ["range", ticks, rnd.choice([None, None] + ATOMIC)]
+    # the fourth field says where the ticks live: in the descriptor (0), in a linked vector (1), in a row of a linked matrix (2)
+    return ["range", ticks, rnd.choice([None, None] + ATOMIC), rnd.choice([0, 0, 1, 2])]
 
 
 def dim_unit(d):
@@ -174,6 +175,8 @@ def inject(rnd, r):
         return (what, ("mtags", i))
     if not t["refs"] and what in ("positions width", "extents shape", "extents width", "unit count"):
         return None
+    if t["pos"] is None and what in ("empty positions", "positions width", "extents shape", "extents width"):
+        return None          # an earlier injection already removed the positions
     if what == "no positions":
         t["pos"] = None
     elif what == "empty positions":
